@@ -183,3 +183,28 @@ def c07Holds (before : Device) (name : Option Str) (published : List Msg) : Bool
   published.all fun m => isDef m || m.tag = s "delProperty"
 
 end Indi.Spec.Dev
+
+/-! ### C14 under re-entrancy: handlers that assign from inside a handler
+
+  The contract is per assignment: every accepted driver-side assignment (also one a handler makes while an
+  event is being dispatched) whose stored value differs from the previous one is announced to every
+  subscribed Change handler exactly once with (old, new); an assignment that changes nothing is
+  announced to nobody.  Judged on what was observed: the assignments in the order they were
+  performed and the handler invocations (as a multiset). -/
+
+namespace Indi.Spec.Dev
+open Indi.Dev
+
+def countCalls (calls : List (Nat × Value × Value)) (h : Nat) (o n : Value) : Nat :=
+  (calls.filter fun c => c.1 = h && !pyNe c.2.1 o && !pyNe c.2.2 n).length
+
+def countAssigns (assigns : List (Value × Value)) (o n : Value) : Nat :=
+  (assigns.filter fun a => pyNe a.1 a.2 && !pyNe a.1 o && !pyNe a.2 n).length
+
+/-- every changing assignment is announced once to every handler, and nothing else is announced -/
+def nestedHolds (handlers : List Nat) (assigns : List (Value × Value)) (calls : List (Nat × Value × Value)) : Bool :=
+  calls.all (fun c => handlers.contains c.1 && pyNe c.2.1 c.2.2 &&
+    countCalls calls c.1 c.2.1 c.2.2 == countAssigns assigns c.2.1 c.2.2) &&
+  assigns.all (fun a => !pyNe a.1 a.2 || handlers.all fun h => countCalls calls h a.1 a.2 == countAssigns assigns a.1 a.2)
+
+end Indi.Spec.Dev
